@@ -28,8 +28,8 @@ def builds_needed(tier):
 
 
 def bounds(tier):
-    return {"rounds": [8, 12, 20], "key_patterns": 4 if tier == "thorough" else 2, "nonce_patterns": 3 if tier == "thorough" else 2,
-            "data_lengths": list(LENS), "start_blocks_32": [0, 1, 2 ** 32 - 2, 2 ** 32 - 1],
+    return {"rounds": [8, 12, 20], "key_patterns": 7 if tier == "thorough" else 3, "nonce_patterns": 5 if tier == "thorough" else 2,
+            "data_lengths": list(lens(tier)), "start_blocks_32": [0, 1, 2 ** 32 - 2, 2 ** 32 - 1],
             "start_blocks_64": "low in {0,2^32-2,2^32-1} x high in {0,1,2^32-1}"}
 
 
@@ -62,11 +62,15 @@ def _nt(ops, meta):
 
 
 def key_patterns(tier):
-    return (5, 1, 0, 6) if tier == "thorough" else (5, 1)
+    return (5, 1, 0, 6, 2, 4, 3) if tier == "thorough" else (5, 1, 0)
 
 
 def nonce_patterns(tier):
-    return (7, 0, 1) if tier == "thorough" else (7, 1)
+    return (7, 0, 1, 2, 4) if tier == "thorough" else (7, 1)
+
+
+def lens(tier):
+    return LENS + ((2, 62, 66, 127, 191, 192, 255, 256, 257, 321, 1025) if tier == "thorough" else ())
 
 
 def shard_ctx(arg, tier):
@@ -81,7 +85,7 @@ def shard_ctx(arg, tier):
                 nonce = pat(np_, 3, nlen)
                 st = stream.Stream(v, r, key, nonce)
                 for s0 in starts(bits):
-                    for n in LENS:
+                    for n in lens(tier):
                         for dp in (0, 5):
                             data = pat(dp, 11, n)
                             exp = obs_of(stream.xor(data, st.keystream(s0 or 0, 0, n)))
